@@ -354,6 +354,10 @@ func c22(p *core.Program, r *core.Report) {
 	// ---- lock discipline on cluster.mu for the job table
 	r.Rule("R8", "only nodes without work start out complete: in the function that builds the resize instructions, a job's per-node completion entry (resizeJob.IDs[id]) is set to anything but false only inside a loop over the same merged per-node source collection the instructions are built from, for the loop's own key, and only when that node's merged list is empty (true under len(sources) == 0, or that test's value); the collection is not written once it is ranged over")
 	c22PremarkedNodes(p, r)
+	r.Rule("R9", "the job slot is freed: a cluster method that installs a job (calls unprotectedGenerateResizeJob and tests its error) reaches completeCurrentJob on every path from the successful call to a return")
+	c22JobSlotFreed(p, r)
+	r.Rule("R10", "RESIZING is sticky: determineClusterState returns ClusterStateResizing on every path on which cluster.state was found equal to ClusterStateResizing")
+	c22ResizingIsSticky(p, r)
 	la := newLockAnalysis(p, lockSpec{pkgRel: "", typ: "cluster", mutex: "mu", guarded: set("jobs", "currentJob"),
 		setup: map[string]string{"newCluster": "constructor"}})
 	if la != nil {
